@@ -972,12 +972,13 @@ class EventBus:
 
         # Always acquire the global lock (it's re-entrant across tasks)
         async with lock:
-            # Process the event
-            await self.process_event(event, timeout=timeout)
-
-            # Mark task as done only if we got it from the queue
-            if from_queue:
-                self.event_queue.task_done()
+            try:
+                # Process the event
+                await self.process_event(event, timeout=timeout)
+            finally:
+                # Mark task as done only if we got it from the queue (also when processing failed, or join() never returns)
+                if from_queue:
+                    self.event_queue.task_done()
 
         logger.debug(f'✅ {self}.step({event}) COMPLETE')
         return event
@@ -995,12 +996,23 @@ class EventBus:
                     handler=handler, eventbus=self, status='pending', timeout=timeout or event.event_timeout
                 )
 
+        interrupted: asyncio.CancelledError | None = None
         try:
             # Execute handlers
             await self._execute_handlers(event, handlers=applicable_handlers, timeout=timeout)
 
             await self._default_log_handler(event)
             await self._default_wal_handler(event)
+        except asyncio.CancelledError as e:
+            # Processing was interrupted, e.g. the handler that awaits this event (and is processing it inline) timed out.
+            # None of the remaining handlers will run any more: settle them so the event still completes instead of
+            # staying in flight forever, then let the cancellation continue
+            interrupted = e
+            for event_result in event.event_results.values():
+                if event_result.status in ('pending', 'started'):
+                    event_result.update(
+                        error=asyncio.CancelledError(f'Cancelled pending handler because processing of {event} was interrupted')
+                    )
         finally:
             # This bus is done with the event (it may still be queued or in flight on buses it was forwarded to)
             event._event_pending_bus_count = max(0, event._event_pending_bus_count - 1)  # pyright: ignore[reportPrivateUsage]
@@ -1037,6 +1049,9 @@ class EventBus:
         # Clean up excess events to prevent memory leaks
         if self.max_history_size:
             self.cleanup_event_history()
+
+        if interrupted is not None:
+            raise interrupted
 
     def _get_applicable_handlers(self, event: 'BaseEvent[Any]') -> dict[str, EventHandler]:
         """Get all handlers that should process the given event, filtering out those that would create loops"""
